@@ -614,16 +614,21 @@ func (e *rpcEnv) HandleRPC(ctx context.Context, s stats.RPCStats) {
 	switch v := s.(type) {
 	case *stats.InHeader:
 		ev.T, ev.Meth = "inheader", v.FullMethod
+		// an observer owns its events: what it does to the header map of its in-header event (an audit log that
+		// strips credentials, say) must not reach the RPC
+		scribble(v.Header)
 	case *stats.Begin:
 		ev.T, ev.CS, ev.SS = "begin", v.IsClientStream, v.IsServerStream
 	case *stats.InPayload:
 		ev.T, ev.Len = "inpayload", v.Length
 	case *stats.OutHeader:
 		ev.T = "outheader"
+		scribble(v.Header)
 	case *stats.OutPayload:
 		ev.T, ev.Len = "outpayload", v.Length
 	case *stats.OutTrailer:
 		ev.T = "outtrailer"
+		scribble(v.Trailer)
 	case *stats.End:
 		ev.T, ev.Err = "end", codeOf(v.Error)
 	default:
